@@ -43,11 +43,17 @@ def entropy (rows : CRows) (L : Int) (site : Int) (removegaps : Bool) : Option F
     let proba := Float.ofNat p.2 / Float.ofNat total
     e - proba * Float.log proba) 0.0)
 
+/-- the loop of `NbVariableSites` over the rows of one column: `seen` is the key set of `charmap` (in
+order of insertion); the loop stops as soon as `len(charmap) > 1` -/
+def variableLoop : List Byte → List Byte → Bool
+  | [], _ => false
+  | s :: t, seen =>
+    let seen' := if s != GAP && s != POINT && s != OTHER then (if seen.contains s then seen else seen ++ [s]) else seen
+    if seen'.length > 1 then true else variableLoop t seen'
+
 /-- `NbVariableSites()`: raw characters except `-`, `.`, `*`; variable = at least two distinct -/
 def nbVariableSites (rows : CRows) (L : Int) : Nat :=
-  ((List.range L.toNat).filter fun j =>
-    let col := (columnAt rows j).filter fun s => s != GAP && s != POINT && s != OTHER
-    (countsBy id col).length > 1).length
+  ((List.range L.toNat).filter fun j => variableLoop (columnAt rows j) []).length
 
 /-- the early-exit loop of `InformativeSites` on one column: number of upper-cased characters reaching
 a count of 2, scanning the rows in order and stopping as soon as two did -/
@@ -77,34 +83,90 @@ def avgAlleles (rows : CRows) (L : Int) : Float :=
   let c := avgAllelesCounts rows L
   Float.ofNat c.1 / Float.ofNat c.2
 
-/-- `CountDifferences()`: (all differences in order of first appearance, per-row maps `REFNEW ↦ count`
-as key-sorted lists) -/
-def countDifferences (rows : CRows) : List (Byte × Byte) × List (List ((Byte × Byte) × Nat)) :=
-  match rows with
+/-- `CountDifferences()` on an alignment with at least one row: (all differences in order of first
+appearance, per-row maps `REFNEW ↦ count` as association lists in order of first appearance) -/
+def countDifferences1 (f : String × Seq) (rest : CRows) : List (Byte × Byte) × List (List ((Byte × Byte) × Nat)) :=
+  match rest with
   | [] => ([], [])
-  | [_] => ([], [])
-  | f :: rest =>
+  | _ =>
     let perRow := rest.map fun r => (f.2.zip r.2).filter fun p => p.1 != p.2
     let all := perRow.flatten.foldl (fun acc p => if acc.contains p then acc else acc ++ [p]) []
     (all, perRow.map fun ds =>
       (ds.foldl (fun acc p => if acc.any (·.1 == p) then acc.map (fun q => if q.1 == p then (q.1, q.2 + 1) else q) else acc ++ [(p, 1)]) []))
 
-/-- `NumGapsUniquePerSequence(nil)`: gaps unique in their column, per row -/
+/-- `CountDifferences()`; `none` = run-time panic: without any sequence the code evaluates
+`make([]map[string]int, a.NbSequences()-1)` with length −1 -/
+def countDifferences (rows : CRows) : Option (List (Byte × Byte) × List (List ((Byte × Byte) × Nat))) :=
+  match rows with
+  | [] => none
+  | f :: rest => some (countDifferences1 f rest)
+
+/-- `numuniques[i]++` on a counter slice -/
+def incrAt : List Nat → Nat → List Nat
+  | [], _ => []
+  | x :: t, 0 => (x + 1) :: t
+  | x :: t, i + 1 => x :: incrAt t i
+
+/-- the inner loop of `NumGapsUniquePerSequence(nil)` over the rows `j, j+1, …` of one column:
+`(nbGapsColumn, uniqueIndex)`; without a profile the loop stops at the second gap.  (`uniqueIndex`
+starts at −1 in Go; it is only read when exactly one gap was seen, hence after it was set: 0 here.) -/
+def gapScan : List Byte → Nat → Nat → Nat → Nat × Nat
+  | [], _, nb, idx => (nb, idx)
+  | r :: t, j, nb, idx =>
+    if r == GAP then (if nb + 1 > 1 then (nb + 1, j) else gapScan t (j + 1) (nb + 1) j)
+    else gapScan t (j + 1) nb idx
+
+/-- `NumGapsUniquePerSequence(nil)`: gaps unique in their column, per row (one counter per row,
+incremented site after site) -/
 def numGapsUnique (rows : CRows) (L : Int) : List Nat :=
-  rows.zipIdx.map fun (_, i) =>
-    ((List.range L.toNat).filter fun j =>
-      let col := columnAt rows j
-      col.count GAP == 1 && col.getD i 0 == GAP).length
+  (List.range L.toNat).foldl (fun acc i =>
+    let r := gapScan (columnAt rows i) 0 0 0
+    if r.1 == 1 then incrAt acc r.2 else acc) (rows.map fun _ => 0)
+
+/-- `indices[c]` after the first inner loop of `NumMutationsUniquePerSequence`: the last row holding `c`
+(0 when there is none: the initial value of the slice) -/
+def lastRowOf (c : Byte) : List Byte → Nat → Nat → Nat
+  | [], _, idx => idx
+  | r :: t, j, idx => lastRowOf c t (j + 1) (if r == c then j else idx)
 
 /-- `NumMutationsUniquePerSequence(nil)`: characters (not `-`, not the N/X wildcard) unique in their
-column, per row -/
-def numMutationsUnique (rows : CRows) (L : Int) (alphabet : Nat) : List Nat :=
+column, per row.  Per site, `occurences[c]` is the number of rows holding `c` and the second inner loop
+visits `c = 0 … 129` in increasing order.  The two slices have 130 entries: a byte ≥ 130 in one of the
+`L` columns is an index panic (`none`). -/
+def numMutationsUnique (rows : CRows) (L : Int) (alphabet : Nat) : Option (List Nat) :=
   let all : Byte := if alphabet == AMINOACIDS then 88 else if alphabet == NUCLEOTIDS then 78 else 46
-  rows.zipIdx.map fun (_, i) =>
-    ((List.range L.toNat).filter fun j =>
-      let col := columnAt rows j
-      let c := col.getD i 0
-      col.count c == 1 && c != all && c != GAP).length
+  if (List.range L.toNat).any (fun i => (columnAt rows i).any fun r => r ≥ 130) then none else
+  some ((List.range L.toNat).foldl (fun acc i =>
+    let col := columnAt rows i
+    (List.range 130).foldl (fun acc c =>
+      let ch := UInt8.ofNat c
+      if col.count ch == 1 && ch != all && ch != GAP then incrAt acc (lastRowOf ch col 0 0) else acc) acc)
+    (rows.map fun _ => 0))
+
+/-! ### count profile (`align/profile.go`) -/
+
+/-- one `p.counts[idx][i]++` of `NewCountProfileFromAlignment` (with the creation of the row of `L` zeros when
+the character is new): the profile is the association list `character ↦ counts per site`, in `header` order
+(first appearance) -/
+def profStep (L : Nat) (acc : List (Byte × List Nat)) (x : Nat × Byte) : List (Byte × List Nat) :=
+  if acc.any (·.1 == x.2) then acc.map fun q => if q.1 == x.2 then (q.1, incrAt q.2 x.1) else q
+  else acc ++ [(x.2, incrAt (List.replicate L 0) x.1)]
+
+/-- the (site, character) pairs in the order the constructor visits them: row after row, left to right -/
+def profItems (rows : CRows) : List (Nat × Byte) := rows.flatMap fun r => r.2.zipIdx.map fun p => (p.2, p.1)
+
+/-- `NewCountProfileFromAlignment(al)`; `none` = index panic: `names` has 130 entries -/
+def countProfile (rows : CRows) (L : Int) : Option (List (Byte × List Nat)) :=
+  if rows.any (fun r => r.2.any fun c => c ≥ 130) then none
+  else some ((profItems rows).foldl (profStep L.toNat) [])
+
+/-- `p.Count(r, site)`: outer `none` = index panic (`r ≥ 130`), inner `none` = error (unknown character, site
+outside the profile) -/
+def profileCount (prof : List (Byte × List Nat)) (r : Byte) (site : Int) : Option (Option Nat) :=
+  if r ≥ 130 then none else
+  match lookup r prof with
+  | none => some none
+  | some cs => if site < 0 || site ≥ cs.length then some none else some (some (cs.getD site.toNat 0))
 
 /-- `Nt2IndexIUPAC` -/
 def nt2IndexIUPAC (c : Byte) : Option Byte := lookup (toUpper c) Gen.iupacToInt
